@@ -8,7 +8,7 @@
 //! around every API call.  Exploration is a stateless, preemption-bounded DFS
 //! with prefix replay.
 
-use lqv_core::report::{FamilyStat, Report, Tier};
+use lqv_report::{FamilyStat, Report, Tier};
 use serde_json::json;
 use std::collections::{HashMap, HashSet};
 use std::io::Write;
@@ -22,6 +22,8 @@ enum St {
     NotStarted,
     Ready,
     WantLock(usize),
+    /// wants the reader-writer lock for reading (shared)
+    WantRead(usize),
     Running,
     Finished,
 }
@@ -36,7 +38,8 @@ struct Choice {
 struct Inner {
     st: Vec<St>,
     current: Option<usize>,
-    owner: HashMap<usize, usize>,
+    /// lock address -> (exclusive owner, shared owners)
+    owner: HashMap<usize, (Option<usize>, Vec<usize>)>,
     prefix: Vec<usize>,
     choices: Vec<Choice>,
     trace: Vec<(usize, &'static str)>,
@@ -66,7 +69,8 @@ impl Sched {
         let cur = g.current;
         let is_en = |i: usize| match &g.st[i] {
             St::Ready => true,
-            St::WantLock(a) => !g.owner.contains_key(a),
+            St::WantLock(a) => g.owner.get(a).map(|(x, r)| x.is_none() && r.is_empty()).unwrap_or(true),
+            St::WantRead(a) => g.owner.get(a).map(|(x, _)| x.is_none()).unwrap_or(true),
             _ => false,
         };
         if let Some(c) = cur {
@@ -116,8 +120,10 @@ impl Sched {
             0
         };
         let t = en[idx];
-        if let St::WantLock(a) = g.st[t].clone() {
-            g.owner.insert(a, t);
+        match g.st[t].clone() {
+            St::WantLock(a) => g.owner.entry(a).or_default().0 = Some(t),
+            St::WantRead(a) => g.owner.entry(a).or_default().1.push(t),
+            _ => {}
         }
         g.st[t] = St::Running;
         g.current = Some(t);
@@ -157,7 +163,16 @@ impl Sched {
 
     fn released(&self, me: usize, addr: usize) {
         let mut g = self.m.lock().unwrap();
-        g.owner.remove(&addr);
+        if let Some((x, r)) = g.owner.get_mut(&addr) {
+            if *x == Some(me) {
+                *x = None;
+            } else if let Some(p) = r.iter().position(|t| *t == me) {
+                r.remove(p);
+            }
+            if x.is_none() && r.is_empty() {
+                g.owner.remove(&addr);
+            }
+        }
         if g.deadlock {
             return;
         }
@@ -194,6 +209,12 @@ fn hook(kind: u32, id: usize) {
         match kind {
             liquid_core::verif_hooks::LOCK_ACQUIRE => s.point(me, "acquire", St::WantLock(id)),
             liquid_core::verif_hooks::LOCK_RELEASED => s.released(me, id),
+            liquid_core::verif_hooks::RW_READ_ACQUIRE => s.point(me, "acquire-read", St::WantRead(id)),
+            liquid_core::verif_hooks::ATOMIC_OP => s.point(me, "atomic", St::Ready),
+            liquid_core::verif_hooks::TRY_LOCK => s.point(me, "try-lock", St::Ready),
+            // a successful try_* acquisition: record ownership, no scheduling decision
+            liquid_core::verif_hooks::TRY_ACQUIRED => s.m.lock().unwrap_or_else(|e| e.into_inner()).owner.entry(id).or_default().0 = Some(me),
+            liquid_core::verif_hooks::TRY_ACQUIRED_READ => s.m.lock().unwrap_or_else(|e| e.into_inner()).owner.entry(id).or_default().1.push(me),
             _ => {}
         }
     }
@@ -277,7 +298,7 @@ const PARTIALS: [(&str, &str); 5] = [
     ("boom", "pre{% yield %}{{ undefined_in_partial }}post"),
 ];
 
-const TEMPLATES: [&str; 8] = [
+const TEMPLATES: [&str; 10] = [
     // 0: includes the lazily compiled partial twice
     "A{% yield %}{% include 'p' %}{% yield %}{% increment c %}{% yield %}{% include 'p' %}",
     // 1: broken partial
@@ -294,6 +315,13 @@ const TEMPLATES: [&str; 8] = [
     "{% include 'm' %}{% yield %}{% include 'm' %}",
     // 7: per-render data and bindings (rendered concurrently with different data)
     "{{ who | yf | append: who | yf | upcase }}{% yield %}{% assign x = who | yf | downcase %}{% yield %}{{ x }}{% capture c %}{{ who }}{% yield %}{% cycle 'p', 'q' %}{% endcapture %}{{ c }}{% increment n %}{% for i in list %}{% yield %}{{ i }}{{ who }}{% endfor %}",
+    // 8: every argument position that a renderable might be tempted to memoise is dynamic (partial name,
+    //    loop bounds and attributes, cycle group, case target, date format) and differs between the two data objects;
+    //    the whole body runs twice per render so that every renderable instance is executed twice
+    "{% for k in (1..2) %}{% include which %}{% yield %}{% for i in (1..n) limit: lim %}{{ i }}{% cycle who: 'a', 'b' %}{% endfor %}{% case who %}{% when 'A' %}isA{% when 'B' %}isB{% endcase %}{% yield %}{{ ts | date: fmt }}{% tablerow i in list cols: n %}{{ i }}{% endtablerow %}{% endfor %}",
+    // 9: the same dynamic include alone, executed twice by each render (state memoised inside a renderable
+    //    only matters from its second execution on)
+    "{% for k in (1..2) %}{% include which %}{% yield %}{% endfor %}",
 ];
 
 struct World {
@@ -333,9 +361,19 @@ fn world() -> World {
     data.insert("name".into(), liquid::model::Value::scalar("missing"));
     data.insert("who".into(), liquid::model::Value::scalar("A"));
     data.insert("list".into(), liquid::model::Value::Array(vec![liquid::model::Value::scalar(1i64), liquid::model::Value::scalar(2i64)]));
+    data.insert("which".into(), liquid::model::Value::scalar("m"));
+    data.insert("n".into(), liquid::model::Value::scalar(3i64));
+    data.insert("lim".into(), liquid::model::Value::scalar(2i64));
+    data.insert("ts".into(), liquid::model::Value::scalar("2020-02-29 23:59:59 +0530"));
+    data.insert("fmt".into(), liquid::model::Value::scalar("%Y"));
     let mut data_b = liquid::Object::new();
     data_b.insert("who".into(), liquid::model::Value::scalar("B"));
     data_b.insert("list".into(), liquid::model::Value::Array(vec![liquid::model::Value::scalar("x")]));
+    data_b.insert("which".into(), liquid::model::Value::scalar("p"));
+    data_b.insert("n".into(), liquid::model::Value::scalar(2i64));
+    data_b.insert("lim".into(), liquid::model::Value::scalar(5i64));
+    data_b.insert("ts".into(), liquid::model::Value::scalar("1999-12-31 00:00:01 -0330"));
+    data_b.insert("fmt".into(), liquid::model::Value::scalar("%j"));
     World { parser, templates, store, data, data_b }
 }
 
@@ -418,6 +456,8 @@ fn harnesses() -> Vec<Harness> {
         Harness { name: "H3", what: "renders with cycle/increment/ifchanged/capture/break while another thread parses with the same parser", plan: vec![vec![Op::Render(2), Op::Render(3)], vec![Op::ParseRender(2), Op::Parse("{% if %}{{ !! }}")]] },
         Harness { name: "H4", what: "three threads, one partial, through get, try_get and include", plan: vec![vec![Op::StoreGet("p"), Op::StoreTryGet("bad")], vec![Op::StoreTryGet("p"), Op::StoreGet("bad")], vec![Op::StoreGet("q")]] },
         Harness { name: "H6", what: "one template rendered concurrently with two different data objects (bindings, capture, cycle, counters, loops must not cross over)", plan: vec![vec![Op::Render(7)], vec![Op::RenderB(7)]] },
+        Harness { name: "H7", what: "one template whose include name is dynamic, rendered concurrently with data naming different partials (state memoised inside the include renderable would cross over)", plan: vec![vec![Op::Render(9)], vec![Op::RenderB(9)]] },
+        Harness { name: "H8", what: "one template with every argument position dynamic (partial name, range bound, limit, cycle group, case target, date format, cols), two data objects", plan: vec![vec![Op::Render(8)], vec![Op::RenderB(8)]] },
         Harness { name: "H5", what: "a render that fails midway (partial error, missing partial) while another renders", plan: vec![vec![Op::Render(4)], vec![Op::Render(3)], vec![Op::Render(5)]] },
     ]
 }
@@ -686,15 +726,26 @@ fn main() {
     std::panic::set_hook(Box::new(|_| {}));
     liquid_core::verif_hooks::install(Some(hook));
     let report = Report::new("C20", tier, "model_checking");
-    report.set_rule("stateless preemption-bounded DFS over all interleavings of 2-3 real threads (1-2 API calls each on shared Parser/Template/PartialStore objects built with the lazy compiler) at the scheduling points: cache-lock acquire / release (hook shim), PartialSource::try_get inside the critical section, a {% yield %} tag between template elements, and before/after every API call; every execution rebuilds the shared objects and replays a choice prefix; states = distinct point interleavings, transitions = scheduling points executed, traces_validated = schedules whose every result was compared with the sequential baseline; non-trivial = distinct interleavings");
-    report.assume("sequentially consistent interleavings only (no atomics or unsafe of the crates' own are involved; Mutex, Arc and LazyLock are std's)");
+    report.set_rule("stateless preemption-bounded DFS over all interleavings of 2-3 real threads (1-2 API calls each on shared Parser/Template/PartialStore objects built with the lazy compiler) at the scheduling points: acquire / release of EVERY Mutex and RwLock and every atomic operation of the three crates (the check links a copy of the working tree in which std::sync is redirected to the verif-hooks shim; today that is the lazy cache lock), PartialSource::try_get inside the critical section, a {% yield %} tag between template elements, and before/after every API call; every execution rebuilds the shared objects and replays a choice prefix; states = distinct point interleavings, transitions = scheduling points executed, traces_validated = schedules whose every result was compared with the sequential baseline; non-trivial = distinct interleavings");
+    report.assume("sequentially consistent interleavings only (atomics are interleaved at operation granularity, weak memory orderings are not modelled); Arc, LazyLock/OnceLock and thread_local are std's and are not scheduling points");
     report.assume("scheduling points at the lock, inside the critical section and between elements suffice because the shared types are Send + Sync by construction and contain no other cross-thread channel");
+    let instr_path = format!("{}/harness/sched/instr/instrument.json", lqv_report::verif_dir());
+    match std::fs::read_to_string(&instr_path).ok().and_then(|t| serde_json::from_str::<serde_json::Value>(&t).ok()) {
+        Some(j) => {
+            eprintln!("[C20] instrumentation: mode={} files_rewritten={} replacements={} primitives={} unhandled={}", j["mode"].as_str().unwrap_or("?"), j["files_rewritten"], j["replacements"], j["primitives"], j["unhandled"]);
+            report.extra("instrumentation", j);
+        }
+        None => {
+            eprintln!("[C20] machinery failure: {instr_path} missing or unreadable (run through ./check)");
+            std::process::exit(2);
+        }
+    }
     let hs = harnesses();
     // (harness index, preemption bound, unbounded); bounds are iterated 0,1,..: the first
     // counterexample found has the fewest preemptions
     let tasks: Vec<(usize, usize, bool)> = if tier.thorough() {
         let mut t = vec![(0, 0, true)];
-        for (hi, maxb) in [(1usize, 5usize), (2, 4), (3, 4), (4, 3), (5, 4), (6, 3)] {
+        for (hi, maxb) in [(1usize, 5usize), (2, 4), (3, 4), (4, 3), (5, 4), (6, 5), (7, 3), (8, 3)] {
             for b in 0..=maxb {
                 t.push((hi, b, false));
             }
@@ -702,7 +753,7 @@ fn main() {
         t
     } else {
         let mut t = vec![];
-        for (hi, maxb) in [(0usize, 3usize), (1usize, 2usize), (2, 2), (3, 2), (4, 1), (5, 2), (6, 1)] {
+        for (hi, maxb) in [(0usize, 3usize), (1usize, 2usize), (2, 2), (3, 2), (4, 1), (5, 2), (6, 2), (7, 1), (8, 1)] {
             for b in 0..=maxb {
                 t.push((hi, b, false));
             }
